@@ -233,6 +233,9 @@ func VerifSpeakerConverge(event int) {
 	case 6: // configuration change: the BGP advertisement stops / starts selecting this node
 		w.cfg = vhCfg([]string{"eth0"}, false, l2me, vr.Bool())
 		st = L.c.SetConfig(lg, w.cfg)
+	case 9: // the OTHER node's conditions / labels change (the layer-2 election depends on every node)
+		w.nodes[1] = vhNode(vhOther, vr.Bool(), vr.Bool())
+		st = L.c.SetNode(lg, w.nodes[1])
 	case 8: // the dual-stack service is simply delivered once more (an update that changes nothing)
 		st = L.c.SetBalancer(lg, w.names[0], w.svcs[0], w.eps[0])
 	case 7: // a dual-stack service keeps only one of its addresses
